@@ -21,6 +21,8 @@ func main() {
 	switch os.Args[1] {
 	case "c20":
 		cmdC20(seed, tier, outdir)
+	case "c18":
+		cmdC18(seed, tier, outdir)
 	default:
 		fmt.Fprintln(os.Stderr, "unknown command", os.Args[1])
 		os.Exit(2)
